@@ -14,7 +14,7 @@ from harness.par import pmap
 TIERS = {
     "quick": dict(MaxWords=4, Lens={1, 3, 4}, Kinds={"h"}, Widths={0, 6, 8, 10}, MinLens={5}, Indents={0, 2},
                   Mds={False, True}, DoDiff=True),
-    "thorough": dict(MaxWords=5, Lens={1, 3, 4}, Kinds={"h", "n"}, Widths={-1, 0, 6, 8, 10, 12}, MinLens={4, 6},
+    "thorough": dict(MaxWords=5, Lens={1, 3, 4}, Kinds={"h", "n"}, Widths={0, 6, 8, 10, 12}, MinLens={4, 6},
                      Indents={0, 2, 3}, Mds={False, True}, DoDiff=True),
 }
 MODEL_INVS = ["Lossless", "MachineIsRunAll", "BoundedK", "P1K", "P2", "DiffLocal", "Dump"]
@@ -119,6 +119,8 @@ def collect(tier: str, seed: int = 0, consts: dict | None = None, pairs: bool = 
         _, words, width, minlen, ii, si, md, mlines = b
         with_pairs = pairs and (not md) and (len(words) <= 3 or cid % (7 if tier == "quick" else 2) == 0)
         cases.append((cid, words, width, minlen, ii, si, md, lens, with_pairs))
+    # negative widths cannot be written in a TLC cfg file: width-0 behaviours are also observed at width -1
+    cases += [(len(cases) + k, c[1], -1, c[3], c[4], c[5], c[6], c[7], False) for k, c in enumerate([c for c in cases if c[2] == 0])]
     traces, meta, errors = [], {}, []
     tid = 0
     for case, (cid, a, steps, pairs, exc) in zip(cases, pmap(_observe, cases)):
@@ -149,6 +151,12 @@ def collect(tier: str, seed: int = 0, consts: dict | None = None, pairs: bool = 
                 cname, src_first, ii, si = E2E_CONTAINERS[n % len(E2E_CONTAINERS)]
                 e2e.append((n, cname, src_first, ii, si, [dict(w) for w in ws], width))
                 n += 1
+    # wide family: a short sentence-final line followed by a sentence that has to wrap, at widths around and above the default 88
+    long_words = [{"k": "p", "n": 9}] * 13
+    for k2, (head, width) in enumerate(product(([{"k": "s", "n": 6}], [{"k": "p", "n": 4}, {"k": "s", "n": 7}], [{"k": "s", "n": 10}, {"k": "s", "n": 5}]),
+                                        (60, 88, 100, 120))):
+        cname, src_first, ii, si = E2E_CONTAINERS[k2 % len(E2E_CONTAINERS)]
+        e2e.append((n + k2, cname, src_first, ii, si, [dict(w) for w in head] + [dict(w) for w in long_words] + [{"k": "s", "n": 6}, {"k": "p", "n": 4}], width))
     for case, (cid, a, exc) in zip(e2e, pmap(_observe_e2e, e2e)):
         _, cname, src_first, ii, si, words, width = case
         base = dict(fn=f"reformat_text(semantic)[{cname}]", text=src_first + " ".join(vocab.concretise(words, positional=False)),
